@@ -91,6 +91,9 @@ def sv_py(v, ints, seqtype, rep=None):
     if rep in ("pyint", "fraction"):
         one = exact if rep == "pyint" else (lambda q: Fr(q))
         return one(v["s"]) if "s" in v else tuple(one(x) for x in v["v"])
+    if rep in ("int8", "int16"):
+        ty = numpy.int8 if rep == "int8" else numpy.int16
+        return ty(int(Fr(v["s"]))) if "s" in v else numpy.array([int(Fr(x)) for x in v["v"]], dtype=ty)
     if "s" in v:
         if rep == "float64":
             return numpy.float64(num(v["s"]))
@@ -249,7 +252,7 @@ def evaluate(d):
         if c.c is not c.x:
             table[gkey(c.c)] = c.fc
     state = {"cur": None}
-    calls, feas_calls = [], []
+    calls, feas_calls, feas_extra = [], [], []
 
     fwrap = d.get("fwrap")
 
@@ -289,10 +292,16 @@ def evaluate(d):
             return func
         return func
 
-    def feasibility(individual):
+    def feasibility(individual, strict=False, *more, **options):
+        # a feasibility function with OPTIONAL parameters (bounds, a strictness flag ...): the decorators call it with
+        # the individual alone; anything else it receives changes its verdict (seeded change C19-r6m2 forwards the
+        # evaluation's extra arguments "if the function accepts them")
         feas_calls.append(individual)
         cur = state["cur"]
         rep = cur.d.get("feas_rep", "bool")
+        if strict or more or options:
+            feas_extra.append((strict, more, options))
+            return not cur.feas
         if rep == "numpy":
             return numpy.bool_(cur.feas)          # e.g. numpy.all(numpy.array(ind) > 0)
         if rep == "int":
@@ -587,6 +596,28 @@ def make(rng, k, signs, feas, dkind, distkind, big=False, missize=False):
     return d
 
 
+def make_narrow(rng):
+    """ClosestValidPenalty with the distance handed over as a numpy integer narrower than 64 bits (a Chebyshev / Hamming
+    distance computed on an int8 / int16 genome) and an integer alpha whose product with the distance leaves that dtype:
+    the code multiplies with FLOAT signs, so the product is a double (seeded change C19-r6m3 turns the signs into ints and
+    the product wraps).  DeltaPenalty is left out: with a Python-int constant outside the dtype numpy 2 itself raises."""
+    n = rng.choice([1, 1, 2, 3])
+    signs = [rng.choice([1, -1, -1, 0]) for _ in range(n)]
+    d = make(rng, "closest", signs, False, None, rng.choice(["scalar", "vector"]))
+    rep = rng.choice(["int8", "int16"])
+    lo, hi = (50, 127) if rep == "int8" else (9000, 32767)
+    if "s" in d["dist"]:
+        d["dist"] = {"s": sfr(Fr(rng.randint(lo, hi)))}
+    else:
+        d["dist"] = {"v": [sfr(Fr(rng.randint(lo, hi))) for _ in range(n)]}
+    d["dist_rep"] = rep
+    d["alpha"] = sfr(Fr(rng.randint(2, 9)))
+    d["ints"] = True
+    d["inc"] = [sfr(Fr(0))]
+    d.pop("alias", None)
+    return d
+
+
 def make_seq(rng):
     """2-5 calls through ONE decorator object that decorates 1-3 different functions: individuals of different
     fitness classes (sign pattern, magnitudes, number of objectives), feasible and infeasible mixed, different
@@ -824,6 +855,8 @@ def generate(tier, rng, mult):
             yield d
         for d in make_kwnames(rng):
             yield d
+        for _ in range(40):
+            yield make_narrow(rng)
         for _ in range(3):
             for d in make_wrapped(rng):
                 yield d
